@@ -1,5 +1,5 @@
 use crate::{
-  managed::{DebugHeap, DebugWrap, Trace}, reference::Object, value::Value
+  managed::{DebugHeap, DebugWrap, Trace}, reference::Object, utils::fmt_nested, value::Value
 };
 use std::{
   fmt::{self, Display},
@@ -33,7 +33,10 @@ impl Method {
 
 impl Display for Method {
   fn fmt(&self, f: &mut fmt::Formatter<'_>) -> fmt::Result {
-    write!(f, "{}.{}", self.receiver(), self.method())
+    // the receiver can be a bound method itself
+    fmt_nested(f, self as *const Self as usize, |f| {
+      write!(f, "{}.{}", self.receiver(), self.method())
+    })
   }
 }
 
